@@ -63,9 +63,7 @@ def variants_for(slot: str) -> list[str]:
 
 def pick_variant(rng, slot: str) -> str:
     vs = variants_for(slot)
-    # annotation-driven strategies are rare (they run into the stale-alias finding and make a class unobservable)
-    w = [0.35 if v == "astrat" else 1.0 for v in vs]
-    return rng.choices(vs, weights=w)[0]
+    return rng.choice(vs)
 
 
 def gen_case(rng, entry=None, alias=None, tkind=None, present=None, shape=None) -> dict:
@@ -144,61 +142,6 @@ def oracle_expected(case: dict, d: str) -> dict:
     if is_pass(case["slots"][w], d):
         return {"layers": [], "base": "pass"}
     return {"layers": [w], "base": "pass"}
-
-
-def stale_alias_prediction(case: dict, d: str):
-    """Known finding `stale-annotated-alias`: precise predicate + the behaviour it predicts.
-    The winner is an annotation-driven strategy and the field type is an Annotated alias:
-    the registry is re-entered with the alias still attached to the spec."""
-    w = oracle_winner(case, d)
-    if case["alias"] != "annotated" or w is None or case["slots"][w] != "astrat":
-        return None
-    if w.endswith(".ann"):
-        return {"mode": "recursion", "obs": {"error": "RecursionError"}}
-    if w == "F2":
-        ann = [s for s in order_of_property() if s.endswith(".ann") and s in case["slots"] and effective(case["slots"][s], d)]
-        if not ann:
-            return None
-        t = ann[0]
-        if case["slots"][t] == "astrat":
-            return {"mode": "recursion", "obs": {"error": "RecursionError"}}
-        if is_pass(case["slots"][t], d):
-            return None
-        return {"mode": "double", "obs": {"layers": ["F2", t], "base": "pass"}}
-    return None
-
-
-def creation_recursion(case: dict) -> bool:
-    """Creating a mixin class compiles the default methods (no call dialect; for a format mixin
-    also the dict-format methods, which have no format dialect) in both directions.  True if the
-    known finding predicts RecursionError for one of those configurations."""
-    if case["entry"] == "mixin":
-        drops = [("call",)]
-    elif case["entry"] in ("mixin_fmt", "mixin_msgpack"):
-        drops = [("call",), ("call", "dflt")]
-    else:
-        return False
-    sh = {**DEFAULT_SHAPE, **case.get("shape", {})}
-    if sh["decl"] != "own" or sh["generic"] == "typevar":
-        # ancestors declared before the class that carries the Config are compiled without it
-        drops = drops + [("call", "cfgd", "cfg"), ("call", "cfgd", "cfg", "dflt")]
-    # every class of the chain is compiled: with the field's own options, with the decoy options of a base
-    # declaration, or (generic base with an unbound TypeVar) in a form where no registration matches
-    tables = {s: v for s, v in case["slots"].items() if s not in ("F1", "F2")}
-    fields = [{s: v for s, v in case["slots"].items() if s in ("F1", "F2")}]
-    if sh["decoy"] in ("f1", "both"):
-        fields.append({"F1": "both"})
-    elif sh["decoy"] == "f2":
-        fields.append({"F2": "strat"})
-    for drop in drops:
-        for fs in fields:
-            c = dict(case)
-            c["slots"] = {**{s: v for s, v in tables.items() if s.split(".")[0] not in drop}, **fs}
-            for d in ("ser", "de"):
-                p = stale_alias_prediction(c, d)
-                if p is not None and p["mode"] == "recursion":
-                    return True
-    return False
 
 
 # ---------------------------------------------------------------------------------------
@@ -567,7 +510,8 @@ Definition tUnh := KList [KStr "m"].     (* Annotated[..., ["m"]]: truthy, unhas
 Definition case_t : Type := dir * sources * nat * kv * option (list nat * nat).
 Definition c_an (alias: nat) : kv := match alias with 2 => KNone | 3 => tUnh | _ => tAnn end.
 Definition c_ks (alias: nat) (Ox: kv) : list kv := match alias with 2 => [tEx; Ox] | _ => [c_an alias; tEx; Ox] end.
-Definition c_stale (alias: nat) : list kv := match alias with 0 => [tAnn] | 3 => [tUnh] | _ => [] end.
+(* the re-entry after a use_annotations strategy carries no alias (annotated_type=None, /repo ed8922a) *)
+Definition c_stale (alias: nat) : list kv := [].
 (* the model: applied, built on resolve *)
 Definition model_ok (c: case_t) : bool :=
   match c with (d, Sr, alias, Ox, obs) => obs_eqb (applied 40 Sr (c_ks alias Ox) (c_stale alias) tAny d true) obs end.
@@ -1078,12 +1022,8 @@ def classify(case: dict, d: str, obs: dict):
     exp = oracle_expected(case, d)
     if "error" not in obs and obs["layers"] == exp["layers"] and obs["base"] == exp["base"]:
         return None
-    pred = stale_alias_prediction(case, d)
     got = {"error": obs["error"].split(":")[0]} if "error" in obs else {"layers": obs["layers"], "base": obs["base"]}
-    if pred is not None and got == pred["obs"]:
-        sig = {"kind": "stale-annotated-alias", "mode": pred["mode"]}
-    else:
-        sig = {"kind": "precedence", "entry": case["entry"], "dir": d}
+    sig = {"kind": "precedence", "entry": case["entry"], "dir": d}
     what = (f"{case['entry']} {d} alias={case['alias']} type={case['tkind']} slots={case['slots']}: expected "
             f"{exp}, observed {got}")
     return what, sig
@@ -1113,7 +1053,7 @@ def run(ctx: vlib.Ctx):
     ctx.assumptions += ["strategy values are pass_through, dicts with serialize/deserialize entries, or SerializationStrategy instances (other values are ignored by the code; covered only by the kernel validation)"]
     br = ctx.theorems("props/C10_precedence.vo", ["C10_precedence", "C10_empty", "C10_pass_through", "C10_sym", "C10_keys"],
                       kernels=["K5"])
-    br2 = ctx.theorems("props/C10_single.vo", ["C10_single_application_partial", "C10_single_application_refuted"], kernels=["K5"])
+    br2 = ctx.theorems("props/C10_single.vo", ["C10_single_application"], kernels=["K5"])
     br3 = ctx.theorems("props/C10_fields.vo", ["C10_field_decl"], kernels=["K5"])
     br4 = ctx.theorems("props/C10_positions.vo", ["C10_positions", "C10_dialect_reaches", "C10_format_dialect_everywhere"],
                        kernels=["K5", "K5P", "K8"])
@@ -1152,7 +1092,6 @@ def run(ctx: vlib.Ctx):
     import time as _t
     ctx.notes.append(f"real classes built and run: {len(cases)} in {_t.time() - t_run:.1f}s")
     coq_cases, coq_descr = [], []
-    unobservable = 0
     for case, res in zip(cases, results):
         ctx.hist("entry", case["entry"])
         ctx.hist("alias", case["alias"])
@@ -1164,11 +1103,6 @@ def run(ctx: vlib.Ctx):
             key = (case["entry"], case["alias"], case["tkind"], tuple(sorted(case["slots"].items())), d,
                    tuple(sorted(case.get("shape", {}).items())))
             if "class_error" in res:
-                pred = stale_alias_prediction(case, d)
-                if res["class_error"] == "RecursionError" and (pred is None or pred["mode"] != "recursion") \
-                        and creation_recursion(case):
-                    unobservable += 1      # the class cannot be created because of another direction / method
-                    continue
                 obs = {"error": res["class_error"]}
             else:
                 obs = res[d]
@@ -1188,7 +1122,6 @@ def run(ctx: vlib.Ctx):
                 what, sig = bad
                 ctx.fail(what, {"entry": case["entry"], "dir": d, "case": case, "source": build_source(case),
                                 "observed": obs, "expected": oracle_expected(case, d)}, sig)
-    ctx.coverage["unobservable_directions"] = unobservable
     for case, d, obs in coq_descr[:4]:
         ctx.sample({"entry": case["entry"], "alias": case["alias"], "type": case["tkind"], "slots": case["slots"],
                     "dir": d, "observed": obs, "oracle": oracle_expected(case, d)})
@@ -1200,13 +1133,6 @@ def run(ctx: vlib.Ctx):
             ctx.correspondence(name, len(coq_cases), -1, log)
             ctx.not_shown("correspondence " + name, log)
             return False
-        # a repaired known finding: the model still contains the defect, the code now satisfies the property there
-        stale = [i for i in bad if stale_alias_prediction(coq_descr[i][0], coq_descr[i][1]) is not None
-                 and classify(*coq_descr[i]) is None]
-        if stale:
-            ctx.notes.append(f"model-stale: finding C10/stale-annotated-alias no longer reproduces on {len(stale)} cases "
-                             "(the code now satisfies the property there; Strategies.applied still models the defect)")
-            bad = [i for i in bad if i not in set(stale)]
         det = [f"{coq_descr[i][0]['entry']} {coq_descr[i][1]} alias={coq_descr[i][0]['alias']} type={coq_descr[i][0]['tkind']} "
                f"slots={coq_descr[i][0]['slots']} observed={coq_descr[i][2]}" for i in bad[:6]]
         ctx.correspondence(name, len(coq_cases), len(bad), str(det))
